@@ -19,6 +19,7 @@ import (
 	"context"
 	"fmt"
 	"sort"
+	"strconv"
 	"strings"
 	"sync"
 	"sync/atomic"
@@ -310,14 +311,16 @@ func (in *c14sInst) apply(op c14sOp) error {
 			if err = in.step(); err != nil {
 				return err
 			}
+			if err = in.checkExact(); err != nil {
+				return err
+			}
 		}
-		return in.checkExact()
+		return nil
 	case c14sOpTrim:
 		kind = c14sTrimExplicit
 		in.cm.TrimOpenConns(context.Background())
 	case c14sOpForce:
 		in.cm.ForceTrim()
-		synctest.Wait()
 		x, nx := in.cl.take()
 		err = c14sCheckForced(m, x, nx)
 		protClosed := false
@@ -343,7 +346,6 @@ func (in *c14sInst) apply(op c14sOp) error {
 		}
 		return in.checkExact()
 	}
-	synctest.Wait()
 	x, nx := in.cl.take()
 	if err = c14sCheckTrim(m, kind, x, nx, m.values()); err != nil {
 		return err
@@ -487,29 +489,25 @@ func (in *c14sInst) checkExact() error {
 
 // ---------- canonical key: white-box snapshot of the manager + model ----------
 
-func c14sRel(now, t time.Time, cap time.Duration) string {
+func c14sAppRel(b []byte, now, t time.Time, cap time.Duration) []byte {
 	if t.IsZero() {
-		return "never"
+		return append(b, "never"...)
 	}
 	d := now.Sub(t)
 	if d > cap {
 		d = cap
 	}
-	return d.String()
+	return strconv.AppendInt(b, int64(d/time.Millisecond), 10)
 }
 
 func (in *c14sInst) key() string {
 	cm := in.cm
 	now := in.clk.Now()
-	var sb strings.Builder
-	connName := map[*c14sFakeConn]string{}
-	for i, c := range in.conns {
-		connName[c] = c14sConnName(i)
-	}
+	b := make([]byte, 0, 512)
 	for bi, s := range cm.segments.buckets {
 		s.Lock()
 		if len(s.peers) > 0 {
-			var ids []string
+			ids := make([]string, 0, 4)
 			for id := range s.peers {
 				ids = append(ids, string(id))
 			}
@@ -518,48 +516,77 @@ func (in *c14sInst) key() string {
 				pi := s.peers[peer.ID(id)]
 				// firstSeen is only read as "older than the grace period or not" (and reported by GetTagInfo,
 				// which no oracle reads), so ages are capped at the grace period
-				fmt.Fprintf(&sb, "seg%d %q temp=%v age=%s val=%d tags=", bi, id, pi.temp, c14sRel(now, pi.firstSeen, c14sGrace), pi.value)
-				var tg []string
+				b = append(b, "seg"...)
+				b = strconv.AppendInt(b, int64(bi), 10)
+				b = append(b, ' ')
+				b = append(b, id...)
+				b = append(b, " temp="...)
+				b = strconv.AppendBool(b, pi.temp)
+				b = append(b, " age="...)
+				b = c14sAppRel(b, now, pi.firstSeen, c14sGrace)
+				b = append(b, " val="...)
+				b = strconv.AppendInt(b, int64(pi.value), 10)
+				b = append(b, " tags="...)
+				tg := make([]string, 0, 4)
 				for k, v := range pi.tags {
-					tg = append(tg, fmt.Sprintf("%s=%d", k, v))
+					tg = append(tg, k+"="+strconv.Itoa(v))
 				}
 				for k, v := range pi.decaying {
-					tg = append(tg, fmt.Sprintf("~%s=%d/next=%s", k.name, v.Value, k.nextTick.Sub(now)))
+					tg = append(tg, "~"+k.name+"="+strconv.Itoa(v.Value)+"/next="+strconv.Itoa(int(k.nextTick.Sub(now)/time.Millisecond)))
 				}
 				sort.Strings(tg)
-				sb.WriteString(strings.Join(tg, ","))
-				var cs []string
+				for _, t := range tg {
+					b = append(b, t...)
+					b = append(b, ',')
+				}
+				b = append(b, " conns="...)
+				cs := make([]string, 0, 2)
 				for c := range pi.conns {
 					if fc, ok := c.(*c14sFakeConn); ok {
-						cs = append(cs, connName[fc])
+						cs = append(cs, c14sConnName(fc.idx))
 					} else {
 						cs = append(cs, "?")
 					}
 				}
 				sort.Strings(cs)
-				sb.WriteString(" conns=" + strings.Join(cs, ",") + ";")
+				for _, c := range cs {
+					b = append(b, c...)
+					b = append(b, ',')
+				}
+				b = append(b, ';')
 			}
 		}
 		s.Unlock()
 	}
 	cm.plk.RLock()
-	var pr []string
+	pr := make([]string, 0, 4)
 	for id, tags := range cm.protected {
-		var tg []string
+		tg := make([]string, 0, 2)
 		for t := range tags {
 			tg = append(tg, t)
 		}
 		sort.Strings(tg)
-		pr = append(pr, fmt.Sprintf("%q:%s", string(id), strings.Join(tg, ",")))
+		pr = append(pr, string(id)+":"+strings.Join(tg, ","))
 	}
 	cm.plk.RUnlock()
 	sort.Strings(pr)
 	cm.lastTrimMu.RLock()
 	lt := cm.lastTrim
 	cm.lastTrimMu.RUnlock()
+	b = append(b, "|prot="...)
+	for _, p := range pr {
+		b = append(b, p...)
+		b = append(b, ';')
+	}
+	b = append(b, "|count="...)
+	b = strconv.AppendInt(b, int64(cm.connCount.Load()), 10)
 	// lastTrim is read by nothing but GetInfo in this version; kept (capped at 10 s) so that a version that
 	// enforces the silence period is not merged wrongly
-	fmt.Fprintf(&sb, "|prot=%s|count=%d|lastTrim=%s|lastTick=%s", strings.Join(pr, ";"), cm.connCount.Load(), c14sRel(now, lt, 10*time.Second), now.Sub(*cm.decayer.lastTick.Load()))
-	sb.WriteString("|M:" + in.m.snap())
-	return sb.String()
+	b = append(b, "|lastTrim="...)
+	b = c14sAppRel(b, now, lt, 10*time.Second)
+	b = append(b, "|lastTick="...)
+	b = c14sAppRel(b, now, *cm.decayer.lastTick.Load(), time.Hour)
+	b = append(b, "|M:"...)
+	b = in.m.appendSnap(b)
+	return string(b)
 }
